@@ -535,10 +535,9 @@ def _row_items(draw, width, prof, mode, pen_color="white"):
       if prof["mid_pairs"] and used + 2 <= limit and draw(st.integers(0, 5)) == 0:
         # colour then italics, back to back: the only way to get coloured italics
         items.append(single({"t": "mid", "color": None, "ul": it["ul"]})); used += 1
-      # a mid-row code stands between words: text follows (a row *ending* with one is the labelled class "trailing_mid")
-      if not (prof["trailing_mid"] and draw(st.integers(0, 2)) == 0):
-        t = draw(_phrase(budget - used, prof["rich"]))
-        items.append({"t": "txt", "s": t}); used += len(t)
+      # a mid-row code stands between words: text follows (a row *ending* with one is the labelled class "trailing_mid", below)
+      t = draw(_phrase(budget - used, prof["rich"]))
+      items.append({"t": "txt", "s": t}); used += len(t)
     elif kind == "spc":
       if used + 1 > limit:
         continue
